@@ -16,6 +16,14 @@
 //	packages  two interfaces sharing structs
 //	emitted   as generateStubMetaObject emits them: single-parameter signals and
 //	          properties NOT tuple-wrapped, no parameter list (judged modulo the wrapping)
+//	widths    the width as a dimension (widths.go): structs of 0..8 (thorough 16)
+//	          members and tuples of 0..8 members - the struct and the tuple
+//	          WITHOUT member included - in every position (whole type of a parameter / result /
+//	          signal / property, inside Vec, Map, Tuple, another struct, two
+//	          levels deep, shared by actions and by two interfaces); 0..8
+//	          parameters, 0..8 actions per kind, interface without action,
+//	          package without interface
+//	ids       action ids at the integer boundaries (numerals.go)
 //
 // Totality families: every sequence of <= L tokens of a 24 token IDL
 // alphabet, nesting ladders, and every single-character deletion / prefix of
@@ -28,6 +36,17 @@
 // struct / enum / member / action / parameter / type-reference name in fixed
 // shapes, and as extra tokens of a reduced token alphabet; on these texts
 // ParsePackage is called directly as well.
+// Numeric-literal dimension (numerals.go): a pool of numerals on the integer
+// boundaries (2^31, 2^32, 2^63, 2^64 and neighbours, 20+ digits, leading
+// zeros, signs, other bases, nothing) in the two numeric positions of the
+// grammar - the enum constant and the //uid: value of every comment position -
+// alone and inside otherwise valid declarations, and in the name / type
+// positions; ParseIDL and ParsePackage; an accepted text must hold the
+// interfaces its template declares and the ids written in canonical decimal.
+//
+// A failure seen during the enumeration that does not show again when its case
+// is re-run alone is a violation (<fingerprint>/depends-on-earlier-calls): the
+// code under test keeps state between calls. It is never an engine error.
 package main
 
 import (
@@ -123,8 +142,9 @@ func (p pkg) types() []*sigen.T {
 }
 
 // wellFormed is the precondition of the judged universe: struct names denote
-// one definition per package and differ from interface names, no empty tuple
-// or struct, void only as a method's return type, action ids unique per kind.
+// one definition per package and differ from interface names, void only as a
+// method's return type, action ids unique per kind. (The empty struct and the
+// empty tuple are in the universe: the widths family.)
 func (p pkg) wellFormed() bool {
 	defs := map[string]string{}
 	for _, it := range p.Ifaces {
@@ -149,9 +169,6 @@ func (p pkg) wellFormed() bool {
 	bad := false
 	check := func(t *sigen.T, isRet bool) {
 		t.Contains(func(x *sigen.T) bool {
-			if (x.Kind == sigen.Tuple || x.Kind == sigen.Struct) && len(x.Elem) == 0 {
-				bad = true
-			}
 			if x.Kind == sigen.Atom && x.Atom == 'v' && !(isRet && x == t) {
 				bad = true
 			}
@@ -352,6 +369,8 @@ func idClass(id uint32) string {
 		return "<100"
 	case id == 0xffffffff:
 		return "max"
+	case id >= 1<<31:
+		return ">=2^31"
 	}
 	return ">=100"
 }
@@ -397,6 +416,11 @@ func describe(p pkg) string {
 // lexical classes of the names that could not be replaced by plain ones (by
 // role), or, when every name is plain, the full abstraction of the package.
 func detailOf(p pkg) string {
+	if hasEmptyTuple(p) {
+		// localize has replaced by int32 every empty tuple the failure does
+		// not need: what is left matters, wherever it sits
+		return "tuple[empty]"
+	}
 	set := map[string]bool{}
 	note := func(role, n string) {
 		if c := nameClass(n); c != "plain" {
@@ -410,7 +434,7 @@ func detailOf(p pkg) string {
 			for _, n := range a.PNames {
 				note("parameter", n)
 			}
-			if a.ID < 100 || a.ID == 0xffffffff {
+			if a.ID < 100 || a.ID >= 1<<31 {
 				set["id"+idClass(a.ID)] = true
 			}
 		}
@@ -432,6 +456,17 @@ func detailOf(p pkg) string {
 	}
 	sort.Strings(l)
 	return strings.Join(l, "+")
+}
+
+func isEmptyTuple(x *sigen.T) bool { return x.Kind == sigen.Tuple && len(x.Elem) == 0 }
+
+func hasEmptyTuple(p pkg) bool {
+	for _, t := range p.types() {
+		if t.Contains(isEmptyTuple) {
+			return true
+		}
+	}
+	return false
 }
 
 // coarse describes a reduced package whose names are all plain: for a single
@@ -464,7 +499,7 @@ func coarse(p pkg) string {
 			if t.Kind == sigen.Atom {
 				d = "atom=" + string(t.Atom)
 			}
-			return pos + ":" + d
+			return pos + ":" + d + widthLabel(t)
 		}
 	}
 	// several actions: the kinds present, per interface
@@ -481,6 +516,23 @@ func coarse(p pkg) string {
 		parts = append(parts, "I{"+strings.Join(sortedKeys(set), ",")+"}")
 	}
 	return strings.Join(parts, "+")
+}
+
+// widthLabel marks a reduced struct / tuple whose width lies outside 1..2, the
+// widths of Sig(2,2): localize has removed every member the failure does not
+// need (down to one), so a width above 2 is the smallest failing one and
+// [empty] is only said of a struct that was generated without member.
+func widthLabel(t *sigen.T) string {
+	if t.Kind != sigen.Struct && t.Kind != sigen.Tuple {
+		return ""
+	}
+	switch n := len(t.Elem); {
+	case n == 0:
+		return "[empty]"
+	case n > 2:
+		return fmt.Sprintf("[width=%d]", n)
+	}
+	return ""
 }
 
 func (p pkg) clone() pkg {
@@ -623,6 +675,70 @@ func localize(p pkg, key string) pkg {
 			}
 		}
 	}
+	// an empty tuple the failure does not need becomes the plain i
+	for progressed := true; progressed; {
+		progressed = false
+		var at []int
+		walkNodes(&cur, false, func(idx int, x *sigen.T) {
+			if isEmptyTuple(x) {
+				at = append(at, idx)
+			}
+		})
+		for _, target := range at {
+			q := cur.clone()
+			walkNodes(&q, true, func(idx int, x *sigen.T) {
+				if idx == target {
+					*x = *sigen.A('i')
+				}
+			})
+			if fails(q) {
+				cur = q
+				progressed = true
+				break
+			}
+		}
+	}
+	// the smallest failing width: remove, one at a time, every member of a
+	// struct (in all the nodes carrying its name at once) or of a tuple that
+	// the failure does not need - down to one member: the empty struct is a
+	// class of its own and a reduction must not slip into it
+	for progressed := true; progressed; {
+		progressed = false
+		type node struct {
+			idx, width int
+			kind       sigen.Kind
+			name       string
+		}
+		var nodes []node
+		walkNodes(&cur, false, func(idx int, x *sigen.T) {
+			if (x.Kind == sigen.Struct || x.Kind == sigen.Tuple) && len(x.Elem) > 1 {
+				nodes = append(nodes, node{idx, len(x.Elem), x.Kind, x.Name})
+			}
+		})
+	search:
+		for _, nd := range nodes {
+			for m := nd.width - 1; m >= 0; m-- {
+				q := cur.clone()
+				walkNodes(&q, true, func(idx int, x *sigen.T) {
+					hit := idx == nd.idx
+					if nd.kind == sigen.Struct {
+						hit = x.Kind == sigen.Struct && x.Name == nd.name && len(x.Elem) == nd.width
+					}
+					if hit {
+						x.Elem = append(append([]*sigen.T{}, x.Elem[:m]...), x.Elem[m+1:]...)
+						if x.Kind == sigen.Struct {
+							x.Fields = append(append([]string{}, x.Fields[:m]...), x.Fields[m+1:]...)
+						}
+					}
+				})
+				if fails(q) {
+					cur = q
+					progressed = true
+					break search
+				}
+			}
+		}
+	}
 	try := func(edit func(q *pkg)) {
 		q := cur.clone()
 		edit(&q)
@@ -663,7 +779,7 @@ func localize(p pkg, key string) pkg {
 					try(func(q *pkg) { q.Ifaces[i].Actions[j].PNames[k] = fmt.Sprintf("p%d", k) })
 				}
 			}
-			if a.ID < 100 || a.ID == 0xffffffff {
+			if a.ID < 100 || a.ID >= 1<<31 {
 				try(func(q *pkg) { q.Ifaces[i].Actions[j].ID = 1000 + uint32(j) })
 			}
 		}
@@ -730,6 +846,40 @@ func localize(p pkg, key string) pkg {
 		})
 	}
 	return cur
+}
+
+// walkNodes visits every type node of the package in a fixed order (pre-order
+// per type position, numbered from 0); with fresh = true the types are cloned
+// first so that f may edit them.
+func walkNodes(q *pkg, fresh bool, f func(idx int, x *sigen.T)) {
+	n := 0
+	var walk func(x *sigen.T)
+	walk = func(x *sigen.T) {
+		idx := n
+		n++
+		kids := x.Elem // the members as they were: f may remove one
+		f(idx, x)
+		for _, e := range kids {
+			walk(e)
+		}
+	}
+	for i := range q.Ifaces {
+		for j := range q.Ifaces[i].Actions {
+			a := &q.Ifaces[i].Actions[j]
+			for k := range a.Params {
+				if fresh {
+					a.Params[k] = a.Params[k].Clone()
+				}
+				walk(a.Params[k])
+			}
+			if a.Ret != nil {
+				if fresh {
+					a.Ret = a.Ret.Clone()
+				}
+				walk(a.Ret)
+			}
+		}
+	}
 }
 
 func btoi(b bool) int {
@@ -801,7 +951,8 @@ type kase struct {
 	text   string // totality families
 	idx    int
 	total  bool
-	pp     bool // totality: call ParsePackage directly as well
+	pp     bool    // totality: call ParsePackage directly as well
+	exp    *expect // totality: what an ACCEPTED text must contain (nil = not judged)
 }
 
 func genTypes(g sigen.Gen, d int, emit func(pkg) bool) {
@@ -1215,6 +1366,7 @@ type witness struct {
 	minp     pkg
 	text     string
 	total    bool
+	exp      *expect
 	min      string
 	count    int
 }
@@ -1224,6 +1376,7 @@ type wstate struct {
 	slow         int
 	rewrapped    int
 	parsedOK     int // totality: texts accepted as a package
+	judged       int // totality: accepted texts compared with what their template declares
 	distinct     map[string]struct{}
 	wit          map[string]*witness
 	localised    map[string]int
@@ -1357,6 +1510,13 @@ func (st *wstate) doTotal(c kase) {
 		st.parsedOK++
 		st.distinct["accepted: "+strings.Join(strings.Fields(c.text), " ")] = struct{}{}
 		st.sample(c.family+"\x00acc", fmt.Sprintf("%q => %s", c.text, out))
+		if c.exp != nil {
+			st.judged++
+			if clause, detail := judgeExpect(c.exp, viewsOf(metas)); clause != "" {
+				fp := report.FPEscape("ParseIDL(accepted-text)/" + clause)
+				st.record(&witness{fp: fp, what: fmt.Sprintf("ParseIDL accepts %q but %s", clip(c.text), detail), family: c.family, text: c.text, total: true, exp: c.exp, min: c.text})
+			}
+		}
 	case metas != nil && err != nil:
 		fp := "ParseIDL(arbitrary)/result-and-error"
 		st.record(&witness{fp: fp, what: fmt.Sprintf("ParseIDL returns both meta-objects and an error on %q", clip(c.text)), family: c.family, text: c.text, total: true, min: c.text})
@@ -1367,6 +1527,39 @@ func (st *wstate) doTotal(c kase) {
 	if c.idx%1009 == 1 {
 		st.sample(c.family, fmt.Sprintf("%q => %s", c.text, out))
 	}
+}
+
+// metaView is what judgeExpect looks at: per kind, the name under every id.
+type metaView struct {
+	name  string
+	names map[string]map[uint32]string
+}
+
+func (m metaView) ids(kind string) []uint32 {
+	var l []uint32
+	for id := range m.names[kind] {
+		l = append(l, id)
+	}
+	sort.Slice(l, func(i, j int) bool { return l[i] < l[j] })
+	return l
+}
+
+func viewsOf(metas []object.MetaObject) []metaView {
+	var out []metaView
+	for _, m := range metas {
+		v := metaView{name: m.Description, names: map[string]map[uint32]string{"fn": {}, "sig": {}, "prop": {}}}
+		for id, x := range m.Methods {
+			v.names["fn"][id] = x.Name
+		}
+		for id, x := range m.Signals {
+			v.names["sig"][id] = x.Name
+		}
+		for id, x := range m.Properties {
+			v.names["prop"][id] = x.Name
+		}
+		out = append(out, v)
+	}
+	return out
 }
 
 // parsePackage applies the totality oracle to idl.ParsePackage itself: a
@@ -1400,10 +1593,10 @@ func main() {
 	}
 	tier := report.Tier()
 	start := time.Now()
-	budget := 42 * time.Second
+	budget := 120 * time.Second
 	workers := 8
 	if tier == "thorough" {
-		budget = 520 * time.Second
+		budget = 600 * time.Second
 		workers = 16
 	}
 	if n := runtime.NumCPU(); workers > n {
@@ -1446,6 +1639,14 @@ func main() {
 		res = append(res, famRes{name, universe, n, ok, time.Since(t0).Seconds()})
 	}
 	runTotal := func(name, universe string, gen func(emit func(string) bool)) { runTotalPP(name, universe, false, gen) }
+	runTotalK := func(name, universe string, gen func(emit func(kase) bool)) {
+		t0 := time.Now()
+		n := 0
+		ok := runner.Each(workers, deadline, func(emit func(kase) bool) {
+			gen(func(c kase) bool { n++; c.family, c.idx = name, n; return emit(c) })
+		}, func(w int, c kase) { states[w].doTotal(c) })
+		res = append(res, famRes{name, universe, n, ok, time.Since(t0).Seconds()})
+	}
 
 	runRound("names", fmt.Sprintf("fixed shapes x interface names %q, action names %q (as method, signal, property; alone and between two other methods), parameter name pairs %q, struct names %q x member names %q in 6 type shapes, struct-in-struct for every ordered pair of struct names",
 		ifaceNames, actionNames, paramNames, structNames, fieldNames), genNames)
@@ -1464,6 +1665,12 @@ func main() {
 	runRound("types", "one interface {fn m(T)->T, sig s(T), prop p(T)} for every T of Sig(2,2): depth <= 2, tuple/struct width 1..2, leaves at distance <= 1 over cCwWiIlLfdbsmoX, deeper over "+inner+"; structs named by content",
 		func(emit func(pkg) bool) { genTypes(gt, 2, emit) })
 	runRound("pairs", "fn m(T1,T2)->v|T1 and sig s(T2,T1) for every (T1,T2) over Sig(1,2) (width 1..2) with atoms "+pairAtoms, func(emit func(pkg) bool) { genPairs(pairAtoms, emit) })
+	maxW, nSecond := 8, 4
+	if tier == "thorough" {
+		maxW, nSecond = 16, 1000
+	}
+	runRound("widths", widthsUniverse(maxW, nSecond), func(emit func(pkg) bool) { genWidths(maxW, nSecond, emit) })
+	runRound("ids", fmt.Sprintf("action ids at the integer boundaries: every id of %d on a method, a signal and a property (alone; between two actions of the same kind with ids id-11 and id+11; on all three kinds at once) and every ordered pair of these ids on two methods of one interface", boundaryIDs), genIDs)
 	runTotal("ladders", "nesting ladders of depth 1..24 (Vec<, Map<str,, Tuple<, Tuple<int32,; closed and unterminated) in a struct member and in a method, repeated unterminated blocks", genLadders)
 	runTotal("damaged", "every prefix and every single-character deletion of 3 generated IDL texts", genDamaged)
 	runTotalPP("pkgnames", fmt.Sprintf("identifier shapes as the package name: {package followed by a blank, nothing, a tab, a newline; with leading blanks} x every name of the identifier-shape pool %q "+
@@ -1473,6 +1680,8 @@ func main() {
 	runTotalPP("identshapes", "every name of the identifier-shape pool in every identifier role of 15 fixed declarations (interface, struct and enum name, member name, member type reference, struct referenced from a method, inside Vec<> Map<> Tuple<>, method / signal / property name, parameter name, enum constant, one name for three declarations) "+
 		"without package clause, after `package p` and after `package <the same name>`; then every ordered pair (package name, other name) of the pool in 5 of the shapes; ParseIDL and ParsePackage",
 		true, genIdentShapes)
+	runTotalK("numerals", numeralsUniverse(), genNumerals)
+	runTotalK("numeral-pairs", fmt.Sprintf("every ordered pair (enum constant, uid value) of the %d numerals in one text holding both numeric positions (enum before the interface that uses it; enum after the interface, the uid also behind an enum constant); judged as numerals", len(numerals)), genNumeralPairs)
 	maxNameTok := 3
 	if tier == "thorough" {
 		maxNameTok = 4
@@ -1497,6 +1706,7 @@ func main() {
 		total.slow += st.slow
 		total.rewrapped += st.rewrapped
 		total.parsedOK += st.parsedOK
+		total.judged += st.judged
 		total.notLocalised += st.notLocalised
 		for k := range st.distinct {
 			total.distinct[k] = struct{}{}
@@ -1553,13 +1763,12 @@ func main() {
 				okAll = false
 			}
 		}
-		if !okAll {
-			chk.EngineError("violation %s on %s did not reproduce 5/5", fp, clip(w.p.text()+w.text))
-			continue
-		}
 		rep := map[string]interface{}{"family": w.family, "minimal": w.min, "cases_with_this_fingerprint": w.count, "replay_cmd": "./check.sh C18 quick --replay <this file>"}
 		if w.total {
 			rep["idl_text"] = w.text
+			if w.exp != nil {
+				rep["expect"] = w.exp
+			}
 		} else {
 			rep["package"] = w.minp
 			rep["package_text"] = w.minp.text()
@@ -1568,6 +1777,14 @@ func main() {
 			if o := runner.Guard(func() { idl.GenerateIDL(&buf, w.minp.Name, w.minp.metas()) }); o.Panic == "" && !o.Slow {
 				rep["generated_idl"] = buf.String()
 			}
+		}
+		if !okAll {
+			// really observed during the enumeration, not shown again by the
+			// case alone: the code under test keeps state between calls (a
+			// cache, a shared scope, a pooled buffer). A detection, not a
+			// tool failure.
+			chk.Unstable(fp, fmt.Sprintf("%s [%d cases share this fingerprint]", w.what, w.count), rep)
+			continue
 		}
 		for i := 0; i < w.count; i++ {
 			chk.Report(fp, fmt.Sprintf("%s [%d cases share this fingerprint]", w.what, w.count), rep)
@@ -1588,8 +1805,12 @@ func main() {
 		"rule": "every element of each family's stated universe is generated and judged. distinct_nontrivial = number of distinct (package abstraction, outcome class) pairs of the round-trip families " +
 			"(abstraction = interfaces / action kinds / id class / type shapes with atoms reduced to int/flt/bool/str/any/obj/unk and every name reduced to its lexical class) " +
 			"+ number of distinct blank-normalised token texts that ParseIDL ACCEPTED in the totality families (rejected texts are counted as trivial). " +
-			"Totality families (ladders, damaged, pkgnames, identshapes, nametokens, tokens) are judged by: ParseIDL returns meta-objects or an error, never a panic and never both; " +
-			"in pkgnames / identshapes / nametokens (identifier-shape dimension: names of every lexical shape of the package-name and identifier tokens, as package name and in every identifier role) ParsePackage is called directly too and must return a package or an error, never a panic, never neither",
+			"Round-trip families: names, actions, packages, emitted, types, pairs, widths (structs and tuples of 0..N members in every position, parameter / action / interface counts from 0), ids (action ids at the integer boundaries). " +
+			"Totality families (ladders, damaged, pkgnames, identshapes, numerals, numeral-pairs, nametokens, tokens) are judged by: ParseIDL returns meta-objects or an error, never a panic and never both; " +
+			"in pkgnames / identshapes / nametokens (identifier-shape dimension: names of every lexical shape of the package-name and identifier tokens, as package name and in every identifier role) ParsePackage is called directly too and must return a package or an error, never a panic, never neither; " +
+			"so it is in numerals / numeral-pairs (numeric-literal dimension: every numeral of the pool in the enum-constant position and in the //uid: position of every comment the grammar admits, alone and in otherwise valid declarations), " +
+			"where an ACCEPTED text must in addition hold every interface its template declares and give an action whose uid is written in canonical decimal (1..2^32-1) exactly that id (totality_accepted_texts_judged counts these comparisons). " +
+			"A failure that was observed during the enumeration but does not show again when its case is re-run alone is reported as a violation (<fingerprint>/depends-on-earlier-calls), not as an engine error",
 		"samples":                               samples,
 		"exhaustive":                            exhaustive,
 		"families":                              famCov,
@@ -1598,13 +1819,14 @@ func main() {
 		"failures_not_localised":                total.notLocalised,
 		"workers":                               workers,
 		"totality_texts_accepted":               total.parsedOK,
+		"totality_accepted_texts_judged":        total.judged,
 		"generated_cases_outside_precondition":  skippedIllFormed,
 		"observation_bare_signatures_rewrapped": total.rewrapped,
 		"explanation": "observation_bare_signatures_rewrapped counts signal / property signatures of the `emitted` family that were T in the meta-object and came back as (T); this is counted, not judged (see assumptions). " +
-			"generated_cases_outside_precondition counts generated packages dropped because they break the stated precondition (same struct name for two definitions, struct named like the interface, empty tuple/struct, void outside a return).",
+			"generated_cases_outside_precondition counts generated packages dropped because they break the stated precondition (same struct name for two definitions, struct named like the interface, void outside a return).",
 	}
 	assumptions := []string{
-		"precondition of the judged universe: names are identifiers ([_A-Za-z][_A-Za-z0-9]*, struct names optionally Name<Arg>), a struct name denotes one definition per package and differs from the interface names, no empty tuple or empty struct, void only as a method's return, method parameter signatures are tuples, action ids unique per kind, uid 0 only for registerEvent",
+		"precondition of the judged universe: names are identifiers ([_A-Za-z][_A-Za-z0-9]*, struct names optionally Name<Arg>), a struct name denotes one definition per package and differs from the interface names (a struct without member and a tuple without member ARE in the universe), void only as a method's return, method parameter signatures are tuples, action ids unique per kind, uid 0 only for registerEvent",
 		"parameter NAMES and descriptions are not compared (the statement lists ids, action names and signatures)",
 		"a signal / property signature T of the `emitted` family is accepted when it comes back as (T): whether that re-wrapping breaks the letter of the property is left to the reader",
 		"GenerateIDL iterates over a Go map of interfaces: with two interfaces the order of the text is not deterministic; the comparison is by interface name",
@@ -1618,7 +1840,7 @@ func main() {
 func reproduces(w *witness) bool {
 	if w.total {
 		st := newState()
-		st.doTotal(kase{family: w.family, text: w.text, total: true, pp: true})
+		st.doTotal(kase{family: w.family, text: w.text, total: true, pp: true, exp: w.exp})
 		_, ok := st.wit[w.fp]
 		return ok
 	}
@@ -1647,6 +1869,7 @@ func replay(path string) int {
 		Replay struct {
 			Package *pkg    `json:"package"`
 			Text    *string `json:"idl_text"`
+			Expect  *expect `json:"expect"`
 		} `json:"replay"`
 	}
 	if err := json.Unmarshal(data, &f); err != nil {
@@ -1656,7 +1879,7 @@ func replay(path string) int {
 	st := newState()
 	switch {
 	case f.Replay.Text != nil:
-		st.doTotal(kase{family: "replay", text: *f.Replay.Text, total: true, pp: true})
+		st.doTotal(kase{family: "replay", text: *f.Replay.Text, total: true, pp: true, exp: f.Replay.Expect})
 	case f.Replay.Package != nil:
 		st.doRound(kase{family: "replay", p: *f.Replay.Package})
 	default:
